@@ -1035,7 +1035,12 @@ class SQLStringCache(SQLCache):
         import sqlite3
 
         connection = sqlite3.connect(path)
-        return cls(connection=connection, table=table, text_type="TEXT")
+        return cls(
+            connection=connection,
+            table=table,
+            text_type="TEXT",
+            delete_before_insert=True,
+        )
 
     def encode(self, b):
         return base64.b64encode(b)
